@@ -6,7 +6,8 @@ finite variables (or declared finite); probabilities and distribution parameters
 scale allowed for Normal, Uniform, Laplace); no non-linear dependency cycle among data variables
 (checked on the oracle's own dependency graph).  Oracle: normalisation raises nothing; every monomial
 of degree <= 2 yields a recurrence system and a closed form; the closed form equals the model.
-CPU-limit overruns are recorded, not counted as refusals (the README promises analysability, not speed).
+CPU-limit overruns of the SOLVER are recorded, not counted as refusals (the README promises analysability, not speed);
+normalisation not returning within 30 CPU seconds (100 x the slowest normalisation of the corpus) is non-acceptance.
 """
 import re
 
@@ -20,7 +21,7 @@ LEVEL = "model_checking"
 BUDGET = {"quick": 220, "thorough": 3300}
 ASSUMPTIONS = [
     "class membership decided constructively by the generator + the oracle's own dependency graph",
-    "a refusal is any exception of normalize_program / RecBuilder.get_recurrences / RecurrenceSolver.get; CPU-limit overruns are not refusals",
+    "a refusal is any exception of normalize_program / RecBuilder.get_recurrences / RecurrenceSolver.get; CPU-limit overruns of the solver are not refusals; normalisation (< 0.5 CPU s on every corpus program) not returning within 30 CPU s is",
 ]
 
 CLASS_SEEDS = [
@@ -38,6 +39,10 @@ CLASS_SEEDS = [
     # goals over loop constants
     "k = 3\nx = 0\nwhile true:\n    x = x + k\nend\n",
     "k = Bernoulli(1/2)\nx = 0\nwhile true:\n    x = x + k\nend\n",
+    # random / copied loop constants that the loop body never mentions (goals over them, and over products with loop variables)
+    "u = DiscreteUniform(1, 3)\nx = u\nwhile true:\n    x = x + 1\nend\n",
+    "k = Bernoulli(1/2)\ns = k\nx = 0\nwhile true:\n    x = x + 1 {1/2} x\nend\n",
+    "u = 1 {1/2} 2\nx = 0\nc = 0\nwhile c == 0:\n    c = Bernoulli(1/2)\n    x = x + 1\nend\n",
     # || / ! / elif chains
     "c = 0\nx = 0\ny = 0\nwhile true:\n    c = DiscreteUniform(0, 3)\n    if c == 0 || c == 3:\n        x = x + 1\n    elif !(c == 1):\n        y = y + 1\n    elif c >= 1:\n        y = y - 1\n    else:\n        x = 0\n    end\nend\n",
     # guard over two finite variables, location-scale draws
